@@ -49,7 +49,7 @@ func (d *Device) handleKEYEvent(ie *input.InputEvent) {
 		switch ie.Event.Value {
 		case EV_KEY_PRESS:
 			d.actionTracker[action] = true
-			if !d.checkDoubleActions() {
+			if !d.checkDoubleActions(action) {
 				d.invokeActionPress(action)
 			}
 		case EV_KEY_RELEASE:
@@ -315,7 +315,7 @@ func (d *Device) handleABSEvent(ie *input.InputEvent) {
 			d.releaseHeldAxisAction(identifier, analog.ActionNeg)
 			d.releaseAxisAction(analog.Action)
 
-			if d.checkDoubleActions() {
+			if d.checkDoubleActions(analog.ActionNeg) {
 				return
 			}
 			d.invokeActionPress(analog.ActionNeg)
@@ -329,7 +329,7 @@ func (d *Device) handleABSEvent(ie *input.InputEvent) {
 			d.releaseHeldAxisAction(identifier, analog.Action)
 			d.releaseAxisAction(analog.ActionNeg)
 
-			if d.checkDoubleActions() {
+			if d.checkDoubleActions(analog.Action) {
 				return
 			}
 			d.invokeActionPress(analog.Action)
